@@ -259,6 +259,8 @@ package keeper
 //@ ensures [complete] valid ==> result == nil
 
 //@ func Keeper.ComputePowerToSlash pure
+//@ loop 1 invariant [nothing-slashed-for-real] S == old(S) && E == old(E) && X == old(X)
+//@ loop 2 invariant [nothing-slashed-for-real] S == old(S) && E == old(E) && X == old(X)
 //@ ensures [frame] S == old(S) && E == old(E) && X == old(X)
 
 //@ func Keeper.SlashValidator
